@@ -13,6 +13,7 @@ def check(tree, rep, tier='quick', seed=0):
     rep.exhaustive = True
     rep.assumptions = ['NOT decided: that on a successful run every scheduled line received a value (needs the tracker algorithm, C06) and which lines the data-dependent demand consists of']
     core = get_core(tree)
+    R.k1_success_condition(core, rep)    # success => nothing demanded is left unmet (first sentence of the property)
     R.k12_schedule_once(core, rep)
     R.k13_add_form(core, rep)
     R.k14_solution_lists_all(core, rep)
